@@ -558,4 +558,71 @@ PROPS['C14'] = {'gen': gen_c14_plus, 'monitors': [monitors.mon_status_truth, mon
 PROPS['C17'] = {'gen': gen_c17, 'monitors': [monitors.mon_pacing], 'assumptions': ['virtual clock only: std::time::Instant of the unguarded build is not modelled']}
 
 
+# --------------------------------------------------------------------------- C19 (C interface)
+
+def gen_c19(tier, seed):
+    g = G('v', seed)
+    r = g.rnd
+    nseq = 150 if tier == 'quick' else 3000
+    addrs = [0, 0x80, 0x1fffc, 0x20000, 0x200003, 0x200007, 0x20000f, 0x200013, 0x200037, 0x400000, 0x400002, 0x500000, 0x600000, 0x601fff,
+             0x602000, 0x700000, 0x700101, 0x7ffffc, 0x800000, 0xfffffffc, 0xffffffff]
+    for i in range(nseq):
+        # every list starts by loading a firmware image: Cpu::step panics by design on CPU errors other than bus faults
+        # (an all-zero ROM is HALT), and a panic under the lock poisons the process-global machine for good
+        ops = ['init:%x' % r.choice([1, 2, 2, 0, 0xff])]
+        for _ in range(r.randrange(4, 40)):
+            c = r.random()
+            if c < 0.12:
+                ops += ['t:%x' % r.randrange(0, 40000000), 'step']
+            elif c < 0.18:
+                ops.append('loop:%x' % r.choice([0, 1, 7, 100, 500]))
+            elif c < 0.26:
+                ops.append('pc' if r.random() < 0.4 else 'reg:%x' % r.choice(list(range(16)) + [16, 17, 31, 32, 0x7f, 0x80, 0xf0, 0xff]))
+            elif c < 0.36:
+                a = r.choice(addrs) if r.random() < 0.7 else r.randrange(1 << 32)
+                ops.append(r.choice(['rdw', 'rdb']) + ':%x' % a)
+            elif c < 0.46:
+                ops.append(r.choice(['mm:%x:%x' % (r.choice([0, 1, 0x7fff, 0xffff, r.randrange(65536)]), r.randrange(65536)),
+                                     'md:%x' % r.choice([0, 1, 2, 3, 0xff]), 'mu:%x' % r.choice([0, 1, 2, 7])]))
+            elif c < 0.62:
+                ops.append(r.choice(['qa', 'qb']) + ':%x' % r.choice([0, 1, 0x41, 0x7f, 0x80, 0xff, r.randrange(256)]))
+            elif c < 0.80:
+                ops += ['snap', r.choice(['pa', 'pb'])]
+            elif c < 0.86:
+                ops.append(r.choice(['dirty', 'vram', 'oport']))
+            elif c < 0.93:
+                sd = r.randrange(1 << 32)
+                ops += ['nvset:%x' % sd, 'nvget']
+            else:
+                ops.append('nvget')
+        g.add(['C'] + ops, 'sequential')
+    # concurrent callers: a stepping thread, an input thread and a second input / polling thread
+    ncon = 40 if tier == 'quick' else 1500
+    for i in range(ncon):
+        steps = ['step'] * r.randrange(0, 60) + ['loop:%x' % r.choice([1, 10, 100, 1000])] * r.randrange(0, 8)
+        r.shuffle(steps)
+        n1, n2 = r.randrange(1, 60), r.randrange(1, 60)
+        t1, t2 = [], []
+        for k in range(n1):
+            t1.append(r.choice(['qb:%x' % (k % 128), 'qb:%x' % (k % 128), 'qa:%x' % (k % 128), 'mm:%x:%x' % (k, k), 'md:%x' % (k % 3), 'mu:%x' % (k % 3)]))
+        for k in range(n2):
+            t2.append(r.choice(['qb:%x' % (128 + k % 128), 'qa:%x' % (128 + k % 128), 'pa', 'pb', 'dirty', 'pc', 'reg:%x' % r.randrange(16), 'rdw:%x' % r.choice([0, 0x700000, 0x300000]),
+                                'rdb:400000', 'oport']))
+        g.add(['T', '%x' % r.randrange(1 << 32), '%x' % r.choice([1, 2]), ','.join(steps) + '/' + ','.join(t1) + '/' + ','.join(t2)], 'threads')
+    # boot under contention: the stepper boots firmware 2 while two threads poll the keyboard transmit queue
+    nboot = 1 if tier == 'quick' else 12
+    for i in range(nboot):
+        st = []
+        for k in range(5200):
+            st += ['t:%x' % ((k + 1) * 1000000), 'loop:3e8']
+        polls = ['pb'] * 6000
+        g.add(['T', '%x' % r.randrange(1 << 32), '2', ','.join(st) + '/' + ','.join(polls) + '/' + ','.join(polls)], 'boot-contention')
+    return g.result('Sequential call lists over all 19 exported functions with edge arguments (every version number class, register numbers 0-255, '
+                    'addresses in and between all devices, all button numbers, NVRAM set/get round trips, transmit polls preceded by a snapshot of '
+                    'the queues); three real threads (stepper / input / input+poller) with seeded yields, queues snapshotted before and after; '
+                    'firmware boot by a stepping thread while two threads poll the keyboard transmit queue.')
+
+
+PROPS['C19'] = {'gen': gen_c19, 'monitors': [monitors.mon_capi]}
+
 import cpucases  # noqa: E402,F401  (registers C02-C05)
